@@ -16,7 +16,7 @@ def known_findings():
                 out.append({'property': m.group(1), 'key': m.group(2), 'text': m.group(3)})
     return out
 
-def proof_status(pid):
+def proof_status(pid, tier='quick'):
     """build the property's theorem module, audit axioms of every theorem in it, grep for forbidden constructs"""
     reg = registry.REG.get(pid, {})
     mod = reg.get('module')
@@ -42,6 +42,13 @@ def proof_status(pid):
         res['ok'] = False
         res['errors'].append('axiom audit failed to run: ' + out[-1500:])
         return res
+    if tier == 'thorough':
+        # independent re-check of the compiled module by leanchecker
+        rc2, out2 = pipeline.sh(['lake', 'env', 'leanchecker', mod], cwd=TFV, timeout=3600)
+        res['leanchecker'] = 'ok' if rc2 == 0 else out2[-800:]
+        if rc2 != 0:
+            res['ok'] = False
+            res['errors'].append('leanchecker rejected %s: %s' % (mod, out2[-800:]))
     for m in re.finditer(r'AXIOMS (\S+) \[(.*?)\]', out):
         name, axs = m.group(1), [a.strip() for a in m.group(2).split(',') if a.strip()]
         bad = [a for a in axs if a not in AXIOMS_OK]
@@ -231,7 +238,7 @@ def main(argv):
         print('KNOWN-FINDING: property=%s %s (e.g. %s -> %s)' % (pid, k['text'], f['line'], f['impl']))
 
     # ---- proof obligations
-    ps = proof_status(pid)
+    ps = proof_status(pid, tier)
     obligations, discharged = 0, 0
     ob_list = []
     for t in ps['theorems']:
@@ -287,7 +294,7 @@ def main(argv):
             'obligations': obligations, 'discharged': discharged,
             'checker_cmd': 'cd /verif/TFV && lake build %s && lake env lean <axiom audit>; bridge: lake env lean Delta.lean; correspondence: harness vs driver' % (ps.get('module') or '(no theorem module)'),
             'trusted_base': registry.TRUSTED_BASE,
-            'theorems': ps['theorems'], 'proof_errors': ps['errors'],
+            'theorems': ps['theorems'], 'proof_errors': ps['errors'], 'leanchecker': ps.get('leanchecker'),
             'clauses': registry.REG.get(pid, {}).get('clauses', {}),
             'footprint_definitions': len(foot), 'bridged': bridged, 'broken': broken,
             'model_vs_source': 'identical' if not (st['changed'] or st['added'] or st['removed']) else 'changed: %s added: %s removed: %s' % (st['changed'][:10], st['added'][:10], st['removed'][:10]),
